@@ -77,7 +77,6 @@ def schema():
         raise RuntimeError("schema.py failed: " + out[-1500:])
 
 
-<<<<<<< HEAD
 def c06_sites():
     """Scope access sites of cypher/models/pgsql/translate with the provenance of their identifier argument."""
     goext("c06", "C06Sites.lean")
@@ -103,8 +102,8 @@ def gotyped(mode, outname):
 def c05_facts():
     """map ranges (typed), parameter-map copy, query uses, walk.Generic shape, kind mapper lock table."""
     gotyped("c05", "C05_ranges.lean")
-=======
+
+
 def c02guard():
     """optimize/lowering_plan.go + translate/projection.go -> Generated/C02Guard.lean (guards of limit pushdown / count fast path as source text)."""
     goext("c02guard", "C02Guard.lean")
->>>>>>> build-c03
